@@ -147,10 +147,11 @@ COMBINATORS = [
     (r"^<std::option::Option<.*> as std::ops::Try>::branch$", OPT, {"Some": ("wrap", CF, "Continue", ("payload",)), "None": ("wrap", CF, "Break", ("wrap", OPT, "None", None))}),
     (r"^<std::result::Result<.*> as std::ops::Try>::branch$", RES, {"Ok": ("wrap", CF, "Continue", ("payload",)), "Err": ("wrap", CF, "Break", ("wrap", RES, "Err", ("payload",)))}),
     (r"^<std::option::Option<.*> as std::ops::FromResidual<.*>>::from_residual$", None, ("wrap", OPT, "None", None)),
-    (r"^<std::result::Result<.*> as std::ops::FromResidual<std::result::Result<.*>>>::from_residual$", RES,
-     {"Ok": ("wrap", RES, "Ok", ("payload",)), "Err": ("wrap", RES, "Err", ("payload",))}),
-    (r"^<std::task::Poll<std::result::Result<.*>> as std::ops::FromResidual<std::result::Result<.*>>>::from_residual$", RES,
-     {"Ok": ("wrap", POLL, "Ready", ("wrap", RES, "Ok", ("payload",))), "Err": ("wrap", POLL, "Ready", ("wrap", RES, "Err", ("payload",)))}),
+    # the residual of a Result is always its Err (Ok is Infallible): no test, a literal Err(e)
+    (r"^<std::result::Result<.*> as std::ops::FromResidual<std::result::Result<.*>>>::from_residual$", None,
+     ("wrap", RES, "Err", ("argfield", 0, "Err", 1))),
+    (r"^<std::task::Poll<std::result::Result<.*>> as std::ops::FromResidual<std::result::Result<.*>>>::from_residual$", None,
+     ("wrap", POLL, "Ready", ("wrap", RES, "Err", ("argfield", 0, "Err", 1)))),
 ]
 
 
@@ -270,6 +271,13 @@ def _expand_combinator(facts, d, blocks, b, spec, level, stack_of):
         kind = e[0]
         if kind == "payload":
             return new_block([{"k": "assign", "p": cont_place, "r": {"k": "use", "o": {"m": copy.deepcopy(payload)}}, "l": line}], {"k": "goto", "t": nxt, "l": line})
+        if kind == "argfield":
+            _, ai, vname, vidx = e
+            base = args[ai].get("m") or args[ai].get("c")
+            if base is None:
+                return new_block([{"k": "assign", "p": cont_place, "r": {"k": "use", "o": copy.deepcopy(args[ai])}, "l": line}], {"k": "goto", "t": nxt, "l": line})
+            src = {"l": base["l"], "p": list(base["p"]) + [{"d": vname, "i": vidx}, {"f": 0, "n": "0", "t": None}]}
+            return new_block([{"k": "assign", "p": cont_place, "r": {"k": "use", "o": {"m": src}}, "l": line}], {"k": "goto", "t": nxt, "l": line})
         if kind == "arg":
             return new_block([{"k": "assign", "p": cont_place, "r": {"k": "use", "o": copy.deepcopy(args[e[1]])}, "l": line}], {"k": "goto", "t": nxt, "l": line})
         if kind == "bool":
@@ -354,6 +362,7 @@ def _expand_combinator(facts, d, blocks, b, spec, level, stack_of):
         blk["t"] = {"k": "switch", "o": {"m": {"l": dl_, "p": []}}, "oty": "isize", "ts": [["0", entries[vs[0]]]], "else": entries[vs[1]], "l": line, "syn": "comb"}
     hi = len(blocks)
     _thread_returns(d, blocks, lo, hi, ret, glue, level, stack_of)
+    d.setdefault("_glues", []).append((lo, hi, ret, glue))
     return True
 
 
@@ -371,11 +380,26 @@ def _normal_succ(blocks, b):
     return []
 
 
-def _const_result(st, ret_local):
-    """('variant', name) / ('bool', b) when the statement assigns a literal enum variant / bool to the whole return local."""
+def _const_result(st, ret_local, blocks=None):
+    """('variant', name) / ('bool', b) when the statement assigns a literal enum variant / bool to the whole return local
+    (directly, or by moving a temporary whose only definition in the function is such a literal)."""
     if st.get("k") != "assign" or st["p"]["l"] != ret_local or st["p"]["p"]:
         return None
     r = st["r"]
+    if r["k"] == "use" and blocks is not None:
+        q = r["o"].get("m") or r["o"].get("c")
+        hops = 0
+        while q is not None and not q["p"] and hops < 4:
+            hops += 1
+            defs = [s2 for blk in blocks for s2 in blk["s"] if s2.get("k") == "assign" and s2["p"]["l"] == q["l"] and not s2["p"]["p"]]
+            calls = [blk for blk in blocks if blk["t"].get("k") == "call" and blk["t"]["dest"]["l"] == q["l"]]
+            if len(defs) != 1 or calls:
+                return None
+            r = defs[0]["r"]
+            if r["k"] == "use" and ("m" in r["o"] or "c" in r["o"]):
+                q = r["o"].get("m") or r["o"].get("c")
+                continue
+            break
     if r["k"] == "agg" and "adt" in r and r.get("v") is not None:
         return ("variant", r["v"])
     if r["k"] == "use" and "k" in r["o"] and r["o"]["k"].get("v") in ("true", "false"):
@@ -400,14 +424,18 @@ def _thread_returns(d, blocks, lo, hi, ret_local, glue, level, stack_of):
     # how is the switch operand computed inside T?
     mode = None
     vars_ = None
+    aliases = [dest]   # whole-value copies of dest made inside T before the test (`recv = move dest`)
     for st in tb["s"]:
         if st.get("k") == "assign" and st["p"]["l"] == dest["l"] and len(st["p"]["p"]) <= len(dest["p"]):
             return  # dest is rewritten before the test
+        if st.get("k") == "assign" and not st["p"]["p"] and st["r"]["k"] == "use" and (st["r"]["o"].get("m") in aliases or st["r"]["o"].get("c") in aliases) \
+                and st["p"]["l"] != op["l"]:
+            aliases.append({"l": st["p"]["l"], "p": []})
         if st.get("k") == "assign" and st["p"]["l"] == op["l"] and not st["p"]["p"]:
             r = st["r"]
-            if r["k"] == "discr" and r["p"] == dest and "vars" in r:
+            if r["k"] == "discr" and r["p"] in aliases and "vars" in r:
                 mode, vars_ = "variant", {name: v for v, name in r["vars"]}
-            elif r["k"] == "use" and (r["o"].get("m") == dest or r["o"].get("c") == dest):
+            elif r["k"] == "use" and (r["o"].get("m") in aliases or r["o"].get("c") in aliases):
                 mode = "bool"
             else:
                 mode = None
@@ -438,7 +466,7 @@ def _thread_returns(d, blocks, lo, hi, ret_local, glue, level, stack_of):
             continue
         res = None
         for st in blk["s"]:
-            c = _const_result(st, ret_local)
+            c = _const_result(st, ret_local, blocks)
             if c is not None:
                 res = c
             elif st.get("k") == "assign" and st["p"]["l"] == ret_local:
@@ -596,6 +624,7 @@ def inline(facts, fn, depth=2, want=None, expand=False):
             stack_of[glue] = stack_of[b]
         if glue is not None:
             _thread_returns(d, blocks, db, db + nb, dl, glue, level, stack_of)
+            d.setdefault("_glues", []).append((db, db + nb, dl, glue))
         # argument passing + jump
         if t.get("await_splice"):
             cor = _trace_coroutine_local(blocks, t["args"][0])
@@ -631,6 +660,15 @@ def inline(facts, fn, depth=2, want=None, expand=False):
         blk["t"] = {"k": "goto", "t": db, "l": t.get("l"), "inl_call": ck, "x": t.get("x")}
         inlined.append(ck)
         b += 1
+    # second threading pass: a continuation that was a call when its producer was spliced (e.g. `x.ok_or(e)?`: the `?`
+    # is expanded after `ok_or`) may have become a test of the produced value since
+    for _ in range(2):
+        for (lo_, hi_, ret_, glue_) in list(d.get("_glues", [])):
+            try:
+                _thread_returns(d, blocks, lo_, hi_, ret_, glue_, level, stack_of)
+            except (KeyError, IndexError):
+                pass
+    d.pop("_glues", None)
     g = Fn(fn.facts, fn.key, d)
     g.inlined = inlined
     g.expanded = expanded
